@@ -117,10 +117,15 @@ def main():
                     out.append({"tag": step.get("tag"), "hash": "refused: " + type(e).__name__})
             elif op == "add_line":
                 nets[step["id"]].add_reaction((step["line"], step["fmt"]))
+            elif op == "set_rate_modifier":
+                nets[step["id"]].rate_modifier = {int(k): v for k, v in step["values"].items()}
             elif op == "query":
                 net = nets[step["id"]]
                 _ = [s.alias for s in net.species]
                 _ = net.find_duplicate_reaction()
+                # looking at a network - printing its reactions, searching duplicates by their printed form - changes nothing
+                _ = net.find_duplicate_reaction(mode="short")
+                _ = [f"{r:short}" + f"{r:minimal}" + str(r) for r in net.reaction_list]
             elif op == "binding":
                 from naunet.chemistrydata import update_binding_energy
                 update_binding_energy(step["values"])
